@@ -40,7 +40,7 @@ m = {
     "engines": [{"name": "tla-conformance", "path": "/verif/check", "serves_properties": [c["property_id"] for c in checks],
                  "kind_free_text": "TLA+ specs (spec/*.tla) checked by TLC; Rust harness (harness/) replays schedules on the real crate built with the atomics shim; TLC validates the recorded NDJSON traces against Trace_*.tla"}],
     "checks": checks,
-    "notes": "Fixes of genuine defects in /repo: see KNOWN_FINDINGS.txt (fixed: lines) and DESIGN.md section 7.",
+    "notes": "Fixes of genuine defects in /repo: see KNOWN_FINDINGS.txt (fixed: lines) and DESIGN.md section 12.",
     "not_applicable": na,
 }
 json.dump(m, open(os.path.join(V, "MANIFEST.json"), "w"), indent=1)
